@@ -18,7 +18,7 @@ import ordeval
 import taint
 from units import Interp, Vals, Tup, Q, Rows, Const
 from model import walk_own, AnalysisError, full as norm
-from rules import geom
+from rules import geom, common
 
 EXPLANATION = (
     'Units/levels abstract interpretation (structure concrete, numbers abstract) of bounds / total_bounds / total_bounds_x / total_bounds_y for the six '
@@ -117,6 +117,7 @@ def run(P, R, tier):
     R.assume('S1: Arrow ListArray buffers [v0,o0,...,data]; array.offset/len describe the level-0 window only; null slots of fixed-width arrays hold arbitrary bytes')
     R.assume('S2: coordinate index 2m is x_m, 2m+1 is y_m; S3: boxes are (x0, y0, x1, y1)')
     kernel_rules(P, R)
+    common.nan_buffers(P, R, 'C13.g', ['spatialpandas.geometry._algorithms.bounds', 'spatialpandas.geometry.basefixed', 'spatialpandas.geometry.baselist', 'spatialpandas.geometry.base', 'spatialpandas.spatialindex.rtree'], floor=2)
     I = Interp(P)
     seen = set()
     n_entries = 0
@@ -233,4 +234,6 @@ def delegations(P, R):
         if o.rule == 'C06.b':
             k += 1
             R._add('C13.d', (o.path, o.site.split('::')[-1]), None, o.status, 'Dask total_bounds: ' + o.detail, construct=o.construct)
+        elif o.rule == 'C06.d' and 'propagate' in (o.construct or ''):
+            R._add('C13.d', (o.path, o.site.split('::')[-1]), None, o.status, 'Dask total_bounds is reduced from cached partition bounds: ' + o.detail, construct=o.construct)
     R.floor('C13.d', 'Dask total_bounds obligations', k, 4)
